@@ -84,13 +84,13 @@ def tok_ps(code, en):
 def describe(pid, cfg, w, ctx):
     """Human-readable input, expected/actual tokens and the harness command that replays it."""
     en = enums(ctx)
-    kind = cfg.get('replay_kind')
+    kind = w.get('kind') or cfg.get('replay_kind')
     inp = w['input']
     rep = {}
     if kind == 'word':
         rep['input_text'] = "add_word(0x%04x)" % inp[0]
         rep['harness_cmd'] = ['replay', 'word', str(inp[0])]
-        rep['expected'] = tok_ps(w['expected'], en)
+        rep['expected'] = tok_ps(w['expected'], en) if w['expected'] != [9] else 'a value, not a panic'
         rep['model_actual'] = tok_ps(w['actual'], en)
     elif kind == 'bits':
         s = ''.join({0: '0', 1: '1', 2: 'c'}[x] for x in inp)
@@ -158,7 +158,7 @@ def describe(pid, cfg, w, ctx):
         lay, key, mods, mode = inp[0], inp[1], inp[2], inp[3]
         rep['input_text'] = "%s%s.map_keycode(%s, mods=%03x, %s)" % (form, en['AnyLayout'][lay], en['KeyCode'][key], mods, en['HandleControl'][mode])
         rep['harness_cmd'] = ['replay', 'layout', form + en['AnyLayout'][lay], en['KeyCode'][key], str(mods), en['HandleControl'][mode]]
-        rep['expected'] = tok_dk(w['expected'], en) if w['expected'] else None
+        rep['expected'] = (tok_dk(w['expected'], en) if w['expected'] and w['expected'] != [9] else ('a value, not a panic' if w['expected'] == [9] else None))
         rep['model_actual'] = tok_dk(w['actual'], en)
     else:
         rep['input_text'] = str(inp)
